@@ -31,7 +31,8 @@ STANDS = ['bridgepoint.oal.OALParser.t_ID', 'bridgepoint.oal.parse', 'bridgepoin
           'bridgepoint.interpret.ActionWalker.accept_SelectFromNode', 'bridgepoint.interpret.ActionWalker.accept_SelectFromWhereNode',
           'bridgepoint.interpret.ActionWalker.accept_SelectRelatedNode', 'bridgepoint.interpret.ActionWalker.accept_SelectRelatedWhereNode',
           'bridgepoint.prebuild.prebuild_action']
-NOTE = ('keywords self / transform / bridge / send / generate / event keywords are not varied (outside the C04 program space); '
+NOTE = ('non-trivial cases = (program accepted by the reference evaluator, non-empty re-spelling) pairs; '
+        'keywords self / transform / bridge / send / generate / event keywords are not varied (outside the C04 program space); '
         'programs are C04 programs the reference evaluator accepts on the population used')
 SPELLINGS = ('upper', 'capital', 'mixed')
 
